@@ -133,5 +133,43 @@ if st == "exc":
     rep.fail("set::constructor::raised", f"Company(members={{p1, p2}}): {type(co).__name__}: {co}", {"ops": ["constructor"]})
 elif {x.name for x in co.members} != {"p1", "p2"} or not all(co in p.member_of for p in (P[1], P[2])):
     rep.fail("set::constructor::inference", f"Company(members={{p1, p2}}): field {sorted(x.name for x in co.members)}, inverse fields missing", {"ops": ["constructor"]})
+# ---- elements / owners that are falsy (their class defines __len__): every write is recorded all the same
+from dataclasses import dataclass as _dc, field as _field
+from typing_extensions import List as _List
+from krrood.entity_query_language.predicate import Symbol as _Symbol
+from krrood.ontomatic.property_descriptor.property_descriptor import PropertyDescriptor as _PD
+
+
+@_dc
+class Shelf(_Symbol):
+    name: str
+    load: int = 0
+    holds: _List["Shelf"] = _field(default_factory=list)
+
+    def __len__(self):
+        return self.load
+
+    def __hash__(self):
+        return hash(self.name)
+
+
+@_dc
+class Holds(_PD):
+    ...
+
+
+Shelf.holds = Holds(Shelf, "holds")
+for owner_load, elem_load in itertools.product((0, 2), repeat=2):
+    SymbolGraph().clear()
+    SymbolGraph()
+    top, x, y = Shelf("top", owner_load), Shelf("x", elem_load), Shelf("y", elem_load)
+    st, r = guarded(lambda: (top.holds.append(x), top.holds.extend([y]), setattr(top, "holds", [y, x])))
+    rep.case(("falsy", owner_load, elem_load))
+    got = sorted((rel.source.instance.name, rel.target.instance.name) for rel in SymbolGraph().relations())
+    if st == "exc":
+        rep.fail("list::falsy-instances::raised", f"owner load {owner_load}, element load {elem_load}: {type(r).__name__}: {r}", {"ops": ["falsy"]})
+    elif got != [("top", "x"), ("top", "y")] or [s_.name for s_ in top.holds] != ["y", "x"]:
+        rep.fail("list::falsy-instances::relations", f"owner with len {owner_load}, elements with len {elem_load}: append, extend, assign recorded {got}, field {[s_.name for s_ in top.holds]}",
+                 {"ops": ["falsy"], "owner_len": owner_load, "element_len": elem_load})
 SymbolGraph().clear()
 rep.finish(exhaustive=True)
